@@ -1,0 +1,26 @@
+//! Verification hooks (cargo feature `verif-hooks`), add-only.
+//!
+//! `units::mrt_file_in` and its `api` module are private; this child facade
+//! lets an external harness build the real HTTP queue `Processor` with a queue
+//! it can read (a "capturing queue"). Nothing here changes behaviour.
+
+use std::path::PathBuf;
+use std::sync::Arc;
+
+use tokio::sync::mpsc;
+
+pub use super::api::Processor;
+pub use super::unit::QueueEntry;
+
+/// The processor exactly as `MrtFileIn::run` builds it (`/mrt/<unit>/`
+/// endpoint path, optional `update_path`), plus the receiving end of its
+/// queue, which in production is consumed by `MrtInRunner::run`.
+pub fn new_processor(
+    unit_name: &str,
+    update_path: Option<PathBuf>,
+    capacity: usize,
+) -> (Processor, mpsc::Receiver<QueueEntry>) {
+    let (queue_tx, queue_rx) = mpsc::channel::<QueueEntry>(capacity);
+    let endpoint_path = Arc::new(format!("/mrt/{}/", unit_name));
+    (Processor::new(endpoint_path, update_path, queue_tx), queue_rx)
+}
